@@ -468,3 +468,46 @@ PLANS['C06'] = {
     'note': 'trusted: dbwalk.rs for expected names, generators; the two codecs are compared with each other (differential), so a mistake made identically in both is C01/C03/C05 territory',
     'technique': 'cross-codec differential monitor over generated DOMs, exhaustive over database descriptors',
 }
+
+
+def _c15make(args):
+    import sys
+    sys.path.insert(0, os.path.join(core.VERIF, 'lib'))
+    from monitors import c15
+    return c15.make(*args)
+
+
+def _c15(m, tier, seed, rundir, extra):
+    stride = 5 if tier == 'quick' else 1
+    res = core.run_sharded('c15', ['--seed', seed, '--stride', stride], SH, rundir,
+                           per_shard_args=lambda i: ['--cases', os.path.join(rundir, f'cases-{i}.jsonl')])
+    m.add_results(res, 'c15 write paths')
+    jobs = [(os.path.join(rundir, f'cases-{i}.jsonl'), os.path.join(rundir, f'files-{i}.jsonl'), seed) for i in range(SH)]
+    made = sum(_pool(_c15make, jobs))
+    import concurrent.futures as cf
+    with cf.ThreadPoolExecutor(max_workers=core.NCPU) as ex:
+        futs = [ex.submit(core.run_vh, ['readcmp', '--prop', 'C15', '--in', os.path.join(rundir, f'files-{i}.jsonl')], os.path.join(rundir, f'readcmp-{i}.json')) for i in range(SH)]
+        m.add_results([f.result() for f in futs], 'c15 read paths')
+    m.extra['read_path_files'] = made
+    for i in range(SH):
+        for f in (f'cases-{i}.jsonl', f'files-{i}.jsonl'):
+            p = os.path.join(rundir, f)
+            if os.path.exists(p):
+                os.remove(p)
+
+
+PLANS['C15'] = {
+    'level': 'exploration',
+    'rule': ('every Migrate descriptor of the database (found by an independent walk; 12 at the pinned version) on subclasses of its owner, for every legacy value (all items of the property\'s enum in the database, '
+             'all valid BrickColor numbers, both booleans, a pool of URIs incl. empty; quick tier: every 5th value, all descriptors and paths), with and without an explicit value for the new property: '
+             'path w-bin / w-xml: DOM with the legacy name through the real writer and reader; path r-bin / r-xml: files that contain the legacy PROP chunk / element (built by refbin.py / plain text, both '
+             'chunk / element orders) through the real reader. All four must produce the same new canonical property with equal value, never the legacy name, the explicit value must win, and no path may fail. '
+             'non-trivial = every case; distinct = (class, legacy property, value, presence)'),
+    'floor': {'quick': 300, 'thorough': 3000},
+    'exhaustive': {'thorough': True},
+    'assumptions': ['the four paths are compared with each other (differential): a wrong mapping made identically on all four is not visible here'],
+    'run': _c15,
+    'claim': 'held on every descriptor x value x presence x path/order in scope (thorough: all values): four-path agreement, explicit new value wins, legacy name never survives',
+    'note': 'trusted: refbin.py encoder for r-bin files, hand-written XML for r-xml; Font=100 (Enum.Font.Unknown) is a listed known finding',
+    'technique': 'four-path differential monitor over the database\'s migrating descriptors (exhaustive over legacy values in thorough)',
+}
